@@ -46,6 +46,13 @@ claim("C11", "linear-form (frame arithmetic) analysis of the skip argument along
       "Decides for all 15 entry points and symbolically for Record's skip parameter that both look-ups evaluate to the frame of the statement calling the entry point (chain length d, helper depth h) and to each other, and that File/Line are written only under enableCaller. The runtime's own frame attribution for closures, defers, generics and inlining is a runtime contract and is not decided.",
       NOTE_COMMON, "DESIGN.md §4 C11")
 
+claim("C01", "interprocedural must-gate analysis (path-sensitive typestate over call strings) from every logger's Append and the async worker to every delivery point; order-type evaluation of LevelRange.Enable; provenance rules for entry-point levels, ParseLevelRange, chaining and the rolling-file split",
+      "Decides that every delivery (appender call, channel send, inner logger) is dominated on all call chains by the logger-range gate and, for referenced appenders, by that reference's own gate applied to the event's level; that Enable is min<=l<max on all 13 order types; that each of the 15 entry points gates and records at its own level; one delivery per reference per event; parsing and the generated .wf split tile correctly; chaining depends on a strict comparison of lower bounds. The sort-and-chain algorithm's full correctness over all reference sets is not decided.",
+      NOTE_COMMON, "DESIGN.md §4 C01")
+claim("C10", "path-sensitive typestate from each entry point through the recorder: must-gate before every hook / time.Now / lazy generator / Msgf call, exactly-once counting per emitting path, provenance of the values stored into the event",
+      "Decides for all 15 entry points and every path that hooks, the wall clock, lazy generators and Msgf are evaluated only under the level gate of the logger serving the tag, that each set hook is called exactly once with the caller's context and an unset hook never, that the lazy generator runs exactly once on emitting paths, that the event is populated from those results, that no hook is reachable from the worker goroutine and that both layouts put context fields first.",
+      NOTE_COMMON, "DESIGN.md §4 C10")
+
 PENDING_REASON = "check not built yet in this commit (static rule planned in DESIGN.md section 4); no claim is made until the rule exists and has been validated both ways"
 
 def main():
